@@ -63,6 +63,7 @@ type State struct {
 	defers  map[int][]deferred
 	dead    bool
 	callLog []string
+	defined map[string]bool // ground atoms whose definition has been assumed on this path
 }
 
 func (s *State) clone() *State {
@@ -92,6 +93,12 @@ func (s *State) clone() *State {
 	n.pc = append([]*Term(nil), s.pc...)
 	n.trace = append([]string(nil), s.trace...)
 	n.callLog = append([]string(nil), s.callLog...)
+	if s.defined != nil {
+		n.defined = make(map[string]bool, len(s.defined))
+		for k := range s.defined {
+			n.defined[k] = true
+		}
+	}
 	return n
 }
 
